@@ -411,10 +411,15 @@ class _RangeWrapper:
         return chunk
 
     def __next__(self) -> bytes:
-        chunk = self._next()
-        if chunk:
-            return chunk
-        self.end_reached = True
+        while not self.end_reached:
+            chunk = self._next()
+
+            if chunk:
+                return chunk
+
+            # An empty chunk from the wrapped iterable is skipped, only an
+            # empty slice at the end of the range ends the iteration.
+
         raise StopIteration()
 
     def close(self) -> None:
